@@ -474,9 +474,14 @@ def run(ctx, chk, tier="quick"):
             elif isinstance(q.params_node, ast.Tuple) and isinstance(pname, int) and pname < len(q.params_node.elts):
                 val = q.params_node.elts[pname]
             key_ok = isinstance(val, ast.Name) and val.id == storm_id
-            chk.ob("C13.O3", key_ok, where_of(rise, q.call), "depth looked up for storm_start_epoch = %s" % (ast.unparse(val) if val is not None else "?"),
-                   "the storm id of the same row (%s)" % storm_id, key="compute_rise_offsets|depth-key",
-                   why="a depth looked up by the rise's start belongs to another storm, or to none")
+            depth_keyed = pname is not None and val is not None
+            if not depth_keyed:
+                # all depths fetched at once (into a table keyed in Python), or keyed some other way: not read
+                chk.indeterminate("C13.O3", where_of(rise, q.call), "the total depth is not looked up by `storm_start_epoch = <parameter>` in the query itself: which storm's depth a row gets is not decided")
+            else:
+                chk.ob("C13.O3", key_ok, where_of(rise, q.call), "depth looked up for storm_start_epoch = %s" % (ast.unparse(val) if val is not None else "?"),
+                       "the storm id of the same row (%s)" % storm_id, key="compute_rise_offsets|depth-key",
+                       why="a depth looked up by the rise's start belongs to another storm, or to none")
             sel_ok = q.stmt.columns and q.stmt.columns[0][0][0] == "col" and q.stmt.columns[0][0][2] == "total_depth_mm"
             db = binding_of(ctx, rise, q)
             depth_name = db.names[0] if db is not None and db.names and db.names[0] else None
@@ -508,9 +513,12 @@ def run(ctx, chk, tier="quick"):
                     i1, s1 = endof(y1)
                     y_ok = i0 == "0" and i1 == "-1" and s0 is not None and s1 is not None and ast.unparse(s0) == ast.unparse(s1)
                     ok = x_ok and y_ok and sel_ok
-            chk.ob("C13.O3", ok, where_of(rise, ser[0] if ser else rise.node), desc,
-                   "((0, total rain depth of the row's storm), (level at the rise's first sample, level at its last sample))",
-                   key="compute_rise_offsets|series", why="a rise is the straight segment from zero depth at its initial level to the storm's depth at its final level")
+            if not ok and (not depth_keyed or depth_name is None):
+                chk.indeterminate("C13.O3", where_of(rise, ser[0] if ser else rise.node), "%s: the name holding the row's total depth is not identified" % desc[:100])
+            else:
+                chk.ob("C13.O3", ok, where_of(rise, ser[0] if ser else rise.node), desc,
+                       "((0, total rain depth of the row's storm), (level at the rise's first sample, level at its last sample))",
+                       key="compute_rise_offsets|series", why="a rise is the straight segment from zero depth at its initial level to the storm's depth at its final level")
             # ------------------------------------------------------------ O4 parallel lists
             loop = None
             for a in _anc(ser[0]) if ser else []:
@@ -939,8 +947,9 @@ def _lineage_of_stored_rows(ctx, chk, f, flow, kind, tabs, ids_n, offs_n, map_n,
                 # decided only if the resolved expression speaks about the row loop's own quantities
                 row_names = {n.id for n in ast.walk(row_loop.target) if isinstance(n, ast.Name)} if row_loop is not None else set()
                 mentions_row = any(isinstance(n, ast.Name) and n.id in row_names for n in ast.walk(core))
+                from ..idioms import lookup_defect
                 unread_lookup = any(isinstance(n, ast.Subscript) and isinstance(n.value, ast.Name) and any(isinstance(c_, ast.Call) for c_ in ast.walk(n.slice))
-                                    and index_lookup(n.slice) is None for n in ast.walk(core))
+                                    and index_lookup(n.slice) is None and lookup_defect(n.slice) is None for n in ast.walk(core))
                 if not good and unread_lookup:
                     chk.indeterminate("C13.O3", where, "%s.start_epoch resolves to %s: an element looked up by something other than an exact position look-up" % (s.stmt.table, ast.unparse(core)[:80]))
                 elif not good and not mentions_row:
